@@ -106,7 +106,7 @@ var checks = []Check{
 		Units: []Unit{evalUnit([]string{"evaluator/common.go", "evaluator/c13.go"},
 			Harness{Fn: "ZZC13Math", Expect: []string{"math-min", "math-atan2", "math-round", "witness:end"}, Cross: true},
 			Harness{Fn: "ZZC13Rand", Expect: []string{"rand-ok", "rand-err", "stub:rand.Int31n", "witness:end"}},
-			Harness{Fn: "ZZC13Conv", Quick: p("H", 2), Thorough: p("H", 3), Expect: []string{"conv-ok", "witness:end"}},
+			Harness{Fn: "ZZC13Conv", Quick: p("H", 2), Thorough: p("H", 3), ThoroughBudget: 50 * time.Minute, Expect: []string{"conv-ok", "witness:end"}},
 			Harness{Fn: "ZZC13Outcome", Expect: []string{"exit", "panic", "test1", "test2", "test3", "testbad", "test-msg", "witness:end"}},
 			Harness{Fn: "ZZC13Hsl", Expect: []string{"hsl-ok", "hsl-err", "witness:end"}},
 			Harness{Fn: "ZZC13Len", Quick: p("N", 3), Thorough: p("N", 6), Expect: []string{"witness:end"}},
@@ -137,7 +137,7 @@ var checks = []Check{
 		Units: []Unit{evalUnit([]string{"evaluator/common.go", "evaluator/gen.go", "evaluator/gen2.go", "evaluator/c14.go"},
 			Harness{Fn: "ZZC14Stop", Quick: p("K", 30), Thorough: p("K", 120), Expect: []string{"stopped", "not-stopped", "witness:end"}, MaxInstr: 3_000_000},
 			Harness{Fn: "ZZC14Density", Expect: []string{"density-ok", "witness:end"}},
-			Harness{Fn: "ZZC14Gen", Quick: p("KG", 16, "GD", 1), Thorough: p("KG", 40, "GD", 2), ThoroughBudget: 25 * time.Minute, Expect: []string{"gen-stopped", "gen-finished", "witness:end"}, MaxInstr: 3_000_000},
+			Harness{Fn: "ZZC14Gen", Quick: p("KG", 16, "GD", 1), Thorough: p("KG", 30, "GD", 2), ThoroughBudget: 50 * time.Minute, Expect: []string{"gen-stopped", "gen-finished", "witness:end"}, MaxInstr: 3_000_000},
 			Harness{Fn: "ZZC14Event", Quick: p("KE", 40), Thorough: p("KE", 40), Expect: []string{"ev-stopped", "ev-done", "witness:end"}},
 		)},
 		Assumptions: []string{
@@ -154,7 +154,7 @@ var checks = []Check{
 	{
 		ID: "C15", Title: "Events run their handlers in order, isolated, on shared globals", Level: "model_checking",
 		Units: []Unit{evalUnit([]string{"evaluator/common.go", "evaluator/gen.go", "evaluator/c15.go"},
-			Harness{Fn: "ZZC15Events", Quick: p("E", 2, "H", 1), Thorough: p("E", 3, "H", 2), ThoroughBudget: 25 * time.Minute, Expect: []string{"events-ok", "witness:end"}},
+			Harness{Fn: "ZZC15Events", Quick: p("E", 2, "H", 1), Thorough: p("E", 3, "H", 2), ThoroughBudget: 50 * time.Minute, Expect: []string{"events-ok", "witness:end"}},
 			Harness{Fn: "ZZC15Scopes", Quick: p("NE", 2, "SD", 2, "SL", 2), Thorough: p("NE", 3, "SD", 2, "SL", 2), Expect: []string{"scopes-ok", "witness:end"}},
 		)},
 		Assumptions: []string{
